@@ -73,15 +73,22 @@ Proof.
   unfold run_reused, run_fresh. rewrite reader_call_any. reflexivity.
 Qed.
 
-(* without the reset in SetReader the property fails: three documents of 8
-   bytes each under a limit of 20 *)
+(* without the reset in SetReader the property fails: three documents of 8 bytes
+   each under a limit of 20 (the count runs on), and, with no limit in the way,
+   the end of the first document is still pending when the second one starts *)
 Lemma reader_noreset_refuted :
   exists max h reads,
     run_reused reader_init (reader_call_noreset max) h reads
     <> run_fresh reader_init (reader_call_noreset max) reads.
 Proof.
-  exists 20, [[1; 1; 6]; [1; 1; 6]], [1; 1; 6]. vm_compute. discriminate.
+  exists 20, [[(1, false); (1, false); (6, false)]; [(1, false); (1, false); (6, false)]],
+         [(1, false); (1, false); (6, false)].
+  vm_compute. discriminate.
 Qed.
+Example reader_noreset_pending :
+  run_reused reader_init (reader_call_noreset 1000) [[(3, false); (0, true)]] [(3, false); (0, true)] = (0, RPending) /\
+  run_fresh reader_init (reader_call_noreset 1000) [(3, false); (0, true)] = (2, RDone).
+Proof. vm_compute. split; reflexivity. Qed.
 
 (* ------------------------------------------------------------------ *)
 (* 3. CBE encoder                                                       *)
@@ -277,6 +284,28 @@ Proof.
   - rewrite lookup_set_ready_other; [exact H|]. intro; subst. rewrite ty_eqb_refl in E. discriminate.
 Qed.
 
+Lemma lookup_remove_same k c : lookup k (remove_key k c) = None.
+Proof.
+  induction c as [|[k' st] c IH]; simpl; [reflexivity|].
+  destruct (ty_eqb k k') eqn:E; [exact IH|]. simpl. rewrite E. exact IH.
+Qed.
+
+Lemma lookup_remove_other k k' c : k' <> k -> lookup k' (remove_key k c) = lookup k' c.
+Proof.
+  intro H. induction c as [|[k2 st] c IH]; simpl; [reflexivity|].
+  destruct (ty_eqb k k2) eqn:E.
+  - apply ty_eqb_eq in E. subst k2.
+    destruct (ty_eqb k' k) eqn:E2; [apply ty_eqb_eq in E2; contradiction | exact IH].
+  - simpl. rewrite IH. reflexivity.
+Qed.
+
+Lemma remove_key_absent k c : lookup k c = None -> remove_key k c = c.
+Proof.
+  induction c as [|[k' st] c IH]; intro H; [reflexivity|].
+  rewrite lookup_cons in H. cbn [remove_key]. destruct (ty_eqb k k'); [discriminate|].
+  rewrite IH by exact H. reflexivity.
+Qed.
+
 (* ---- sizes ---- *)
 Fixpoint tsize (t : ty) : nat :=
   match t with
@@ -348,7 +377,7 @@ Lemma gen_comp_unfold c n cs :
   | None =>
       let c1 := (k, false) :: c in
       let '(c2, ok) := gen_list c1 cs in
-      if ok then (set_ready k c2, true) else (c2, false)
+      if ok then (set_ready k c2, true) else (remove_key k c2, false)
   end.
 Proof. reflexivity. Qed.
 
@@ -358,7 +387,8 @@ Definition gen_ok (t : ty) : Prop :=
   forall c P, GInv P c -> (forall p, In p P -> (tsize (erase t) < tsize p)%nat) ->
     extends c (fst (gen c t)) /\
     snd (gen c t) = supported (erase t) /\
-    (snd (gen c t) = true -> GInv P (fst (gen c t)) /\ present t (fst (gen c t))).
+    GInv P (fst (gen c t)) /\
+    (snd (gen c t) = true -> present t (fst (gen c t))).
 
 Lemma GInv_cached_ready P c k st :
   GInv P c -> (forall p, In p P -> (tsize k < tsize p)%nat) -> lookup k c = Some st ->
@@ -383,8 +413,8 @@ Lemma gen_leaf_ok n : gen_ok (TLeaf n).
 Proof.
   intros c P G S. simpl. destruct (lookup (TLeaf n) c) as [st|] eqn:L; simpl.
   - destruct (GInv_cached_ready P c _ _ G S L) as [-> _].
-    split; [apply extends_refl|split; [reflexivity|intros _; split; [exact G|right; exact L]]].
-  - rewrite N.eqb_refl. simpl. split; [|split; [reflexivity|intros _; split]].
+    split; [apply extends_refl|split; [reflexivity|split; [exact G|intros _; right; exact L]]].
+  - rewrite N.eqb_refl. simpl. split; [|split; [reflexivity|split; [|intros _]]].
     + intros k st H. rewrite lookup_cons. destruct (ty_eqb k (TLeaf n)) eqn:E; [|exact H].
       apply ty_eqb_eq in E. subst k. congruence.
     + intros k st H. rewrite lookup_cons in H. destruct (ty_eqb k (TLeaf n)) eqn:E.
@@ -399,14 +429,13 @@ Lemma gen_bad_ok n : gen_ok (TBad n).
 Proof.
   intros c P G S. simpl. destruct (lookup (TBad n) c) as [st|] eqn:L; simpl.
   - destruct (GInv_cached_ready P c _ _ G S L) as [_ F]. simpl in F. discriminate.
-  - split; [|split; [reflexivity|discriminate]].
-    intros k st H. rewrite lookup_cons. destruct (ty_eqb k (TBad n)) eqn:E; [|exact H].
-    apply ty_eqb_eq in E. subst k. congruence.
+  - rewrite N.eqb_refl. simpl.
+    rewrite (remove_key_absent _ _ L). split; [apply extends_refl|split; [reflexivity|split; [exact G|discriminate]]].
 Qed.
 
 Lemma gen_dyn_ok t : gen_ok (TDyn t).
 Proof.
-  intros c P G S. simpl. split; [apply extends_refl|split; [reflexivity|intros _; split; [exact G|left; reflexivity]]].
+  intros c P G S. simpl. split; [apply extends_refl|split; [reflexivity|split; [exact G|intros _; left; reflexivity]]].
 Qed.
 
 Lemma present_extends t c c' : extends c c' -> present t c -> present t c'.
@@ -417,20 +446,20 @@ Lemma gen_list_ok l : Forall (fun c => gen_ok (snd c)) l ->
     (forall u, In u (map snd l) -> forall p, In p P -> (tsize (erase u) < tsize p)%nat) ->
     extends c (fst (gen_list c l)) /\
     snd (gen_list c l) = forallb (fun c => supported (erase (snd c))) l /\
-    (snd (gen_list c l) = true ->
-       GInv P (fst (gen_list c l)) /\ forall u, In u (map snd l) -> present u (fst (gen_list c l))).
+    GInv P (fst (gen_list c l)) /\
+    (snd (gen_list c l) = true -> forall u, In u (map snd l) -> present u (fst (gen_list c l))).
 Proof.
   induction 1 as [|[f u] l Hu _ IH]; intros c P G S; simpl.
-  - split; [apply extends_refl|split; [reflexivity|intros _; split; [exact G|intros u []]]].
-  - simpl in Hu. destruct (Hu c P G (fun p => S u (or_introl eq_refl) p)) as [E1 [O1 R1]].
-    destruct (gen c u) as [c' ok] eqn:Eg. simpl in E1, O1, R1. subst ok.
+  - split; [apply extends_refl|split; [reflexivity|split; [exact G|intros _ u []]]].
+  - simpl in Hu. destruct (Hu c P G (fun p => S u (or_introl eq_refl) p)) as [E1 [O1 [G1 R1]]].
+    destruct (gen c u) as [c' ok] eqn:Eg. simpl in E1, O1, G1, R1. subst ok.
     destruct (supported (erase u)) eqn:Su; simpl.
-    + destruct (R1 eq_refl) as [G1 P1].
-      destruct (IH c' P G1 (fun v Hv => S v (or_intror Hv))) as [E2 [O2 R2]].
-      split; [eapply extends_trans; eassumption|]. split; [exact O2|].
-      intro H. destruct (R2 H) as [G2 P2]. split; [exact G2|].
+    + pose proof (R1 eq_refl) as P1.
+      destruct (IH c' P G1 (fun v Hv => S v (or_intror Hv))) as [E2 [O2 [G2 R2]]].
+      split; [eapply extends_trans; eassumption|]. split; [exact O2|]. split; [exact G2|].
+      intro H. pose proof (R2 H) as P2.
       intros v [<-|Hv]; [eapply present_extends; eassumption | apply P2, Hv].
-    + split; [exact E1|split; [reflexivity|discriminate]].
+    + split; [exact E1|split; [reflexivity|split; [exact G1|discriminate]]].
 Qed.
 
 Lemma gen_comp_ok n cs : Forall (fun c => gen_ok (snd c)) cs -> gen_ok (TComp n cs).
@@ -438,7 +467,7 @@ Proof.
   intros F c P G S. rewrite gen_comp_unfold. set (k := erase (TComp n cs)) in *. cbv zeta.
   destruct (lookup k c) as [st|] eqn:L.
   - destruct (GInv_cached_ready P c _ _ G S L) as [-> Sp]. simpl.
-    split; [apply extends_refl|split; [symmetry; exact Sp|intros _; split; [exact G|right; exact L]]].
+    split; [apply extends_refl|split; [symmetry; exact Sp|split; [exact G|intros _; right; exact L]]].
   - assert (G1 := GInv_push P c k G L).
     assert (S1 : forall u, In u (map snd cs) -> forall p, In p (k :: P) -> (tsize (erase u) < tsize p)%nat).
     { intros u Hu p [<-|Hp].
@@ -447,15 +476,15 @@ Proof.
       - specialize (S p Hp). assert ((tsize (erase u) < tsize k)%nat); [|lia].
         unfold k. rewrite erase_comp. apply tsize_comp_lt. rewrite erase_comps_snd.
         apply in_map_iff. apply in_map_iff in Hu. destruct Hu as [x [<- Hx]]. exists x. split; auto. }
-    destruct (gen_list_ok cs F _ _ G1 S1) as [E2 [O2 R2]].
-    destruct (gen_list ((k, false) :: c) cs) as [c2 ok] eqn:Eg. simpl in E2, O2, R2.
+    destruct (gen_list_ok cs F _ _ G1 S1) as [E2 [O2 [G2 R2]]].
+    destruct (gen_list ((k, false) :: c) cs) as [c2 ok] eqn:Eg. simpl in E2, O2, G2, R2.
     assert (Ec : extends c c2).
     { intros k' st H. apply E2. rewrite lookup_other; [exact H|]. intro; subst. congruence. }
     rewrite <- (supported_erase_comp n) in O2. fold k in O2. subst ok.
+    assert (Lk : lookup k c2 = Some false) by (apply E2, lookup_here).
     destruct (supported k) eqn:Sk; simpl.
-    + destruct (R2 eq_refl) as [G2 P2].
-      assert (Lk : lookup k c2 = Some false) by (apply E2, lookup_here).
-      split; [|split; [reflexivity|intros _; split]].
+    + pose proof (R2 eq_refl) as P2.
+      split; [|split; [reflexivity|split; [|intros _]]].
       * intros k' st H. rewrite lookup_set_ready_other; [apply Ec, H|]. intro; subst. congruence.
       * intros k' st H. destruct (ty_eqb k' k) eqn:E.
         -- apply ty_eqb_eq in E. subst k'. rewrite lookup_set_ready_same in H by congruence.
@@ -473,7 +502,19 @@ Proof.
            ++ right. split; [reflexivity|split; [exact Sp|]].
               eapply comps_ready_mono; [|exact R]. intros u Hu. apply lookup_set_ready_mono, Hu.
       * right. apply lookup_set_ready_same. congruence.
-    + split; [exact Ec|split; [reflexivity|discriminate]].
+    + (* the generator panicked: the placeholder is deleted again *)
+      split; [|split; [reflexivity|split; [|discriminate]]].
+      * intros k' st H. rewrite lookup_remove_other; [apply Ec, H|]. intro; subst. congruence.
+      * intros k' st H. destruct (ty_eqb k' k) eqn:E.
+        -- apply ty_eqb_eq in E. subst k'. rewrite lookup_remove_same in H. discriminate.
+        -- assert (N : k' <> k) by (intro; subst; rewrite ty_eqb_refl in E; discriminate).
+           rewrite lookup_remove_other in H by exact N.
+           destruct (G2 k' st H) as [[-> [I|I]]|[-> [Sp R]]].
+           ++ congruence.
+           ++ left. auto.
+           ++ right. split; [reflexivity|split; [exact Sp|]].
+              eapply comps_ready_mono; [|exact R]. intros u Hu.
+              rewrite lookup_remove_other; [exact Hu|]. intro; subst. congruence.
 Qed.
 
 Lemma gen_all_ok : forall t, gen_ok t.
@@ -547,8 +588,7 @@ Definition CInv (c : cache) : Prop := GInv [] c.
 Definition visit_ok (dyn : bool) (t : ty) : Prop :=
   forall c tr, CInv c -> present t c ->
     (snd (fst (visit dyn c t tr)), snd (visit dyn c t tr)) = spec dyn t tr /\
-    (snd (fst (visit dyn c t tr)) = COk ->
-       CInv (fst (fst (visit dyn c t tr))) /\ extends c (fst (fst (visit dyn c t tr)))).
+    CInv (fst (fst (visit dyn c t tr))) /\ extends c (fst (fst (visit dyn c t tr))).
 
 Lemma CInv_ready c k st : CInv c -> lookup k c = Some st ->
   st = true /\ supported k = true /\ comps_ready k c.
@@ -557,18 +597,16 @@ Proof. intros G L. destruct (G k st L) as [[_ []]|[-> R]]. auto. Qed.
 Lemma visit_list_ok dyn l : Forall (fun c => visit_ok dyn (snd c)) l ->
   forall c tr, CInv c -> (forall u, In u (map snd l) -> present u c) ->
     (snd (fst (visit_list dyn c l tr)), snd (visit_list dyn c l tr)) = spec_list dyn l tr /\
-    (snd (fst (visit_list dyn c l tr)) = COk ->
-       CInv (fst (fst (visit_list dyn c l tr))) /\ extends c (fst (fst (visit_list dyn c l tr)))).
+    CInv (fst (fst (visit_list dyn c l tr))) /\ extends c (fst (fst (visit_list dyn c l tr))).
 Proof.
   induction 1 as [|[reach u] l Hu _ IH]; intros c tr G Pr; simpl.
-  - split; [reflexivity|intros _; split; [exact G|apply extends_refl]].
+  - split; [reflexivity|split; [exact G|apply extends_refl]].
   - destruct reach.
-    + simpl in Hu. destruct (Hu c tr G (Pr u (or_introl eq_refl))) as [E1 R1].
-      destruct (visit dyn c u tr) as [[c' r] tr'] eqn:Ev. simpl in E1, R1.
-      rewrite <- E1. destruct r; simpl; try (split; [reflexivity|discriminate]).
-      destruct (R1 eq_refl) as [G1 X1].
-      destruct (IH c' tr' G1 (fun v Hv => present_extends v c c' X1 (Pr v (or_intror Hv)))) as [E2 R2].
-      split; [exact E2|]. intro H. destruct (R2 H) as [G2 X2]. split; [exact G2|eapply extends_trans; eassumption].
+    + simpl in Hu. destruct (Hu c tr G (Pr u (or_introl eq_refl))) as [E1 [G1 X1]].
+      destruct (visit dyn c u tr) as [[c' r] tr'] eqn:Ev. simpl in E1, G1, X1.
+      rewrite <- E1. destruct r; simpl; try (split; [reflexivity|split; assumption]).
+      destruct (IH c' tr' G1 (fun v Hv => present_extends v c c' X1 (Pr v (or_intror Hv)))) as [E2 [G2 X2]].
+      split; [exact E2|]. split; [exact G2|eapply extends_trans; eassumption].
     + apply IH; [exact G|]. intros v Hv. apply Pr. right. exact Hv.
 Qed.
 
@@ -576,7 +614,7 @@ Lemma visit_all_ok dyn : forall t, visit_ok dyn t.
 Proof.
   induction t as [n|n|n cs IH|t IH] using ty_ind'; intros c tr G Pr.
   - destruct Pr as [D|L]; [discriminate|]. simpl in L. simpl. rewrite L. simpl.
-    split; [reflexivity|intros _; split; [exact G|apply extends_refl]].
+    split; [reflexivity|split; [exact G|apply extends_refl]].
   - destruct Pr as [D|L]; [discriminate|]. simpl in L.
     destruct (CInv_ready c _ _ G L) as [_ [F _]]. simpl in F. discriminate.
   - destruct Pr as [D|L]; [discriminate|]. rewrite visit_comp_unfold, L, spec_comp_unfold.
@@ -588,14 +626,13 @@ Proof.
     + left. rewrite is_dyn_erase in D. exact D.
     + right. exact L2.
   - simpl. destruct dyn.
-    + pose proof (gen_all_ok t c [] G (fun p (F : In p []) => match F with end)) as [E1 [O1 R1]].
-      destruct (gen c t) as [c1 ok] eqn:Eg. simpl in E1, O1, R1. subst ok.
+    + pose proof (gen_all_ok t c [] G (fun p (F : In p []) => match F with end)) as [E1 [O1 [G1 R1]]].
+      destruct (gen c t) as [c1 ok] eqn:Eg. simpl in E1, O1, G1, R1. subst ok.
       destruct (supported (erase t)) eqn:St.
-      * destruct (R1 eq_refl) as [G1 P1]. destruct (IH c1 tr G1 P1) as [E2 R2].
-        split; [exact E2|]. intro H. destruct (R2 H) as [G2 X2].
-        split; [exact G2|eapply extends_trans; eassumption].
-      * simpl. split; [reflexivity|discriminate].
-    + simpl. split; [reflexivity|intros _; split; [exact G|apply extends_refl]].
+      * pose proof (R1 eq_refl) as P1. destruct (IH c1 tr G1 P1) as [E2 [G2 X2]].
+        split; [exact E2|]. split; [exact G2|eapply extends_trans; eassumption].
+      * simpl. split; [reflexivity|split; assumption].
+    + simpl. split; [reflexivity|split; [exact G|apply extends_refl]].
 Qed.
 
 (* ---- one call ---- *)
@@ -608,77 +645,46 @@ Proof. intros k st L. discriminate. Qed.
 Lemma cache_call_obs dyn c t : CInv c -> snd (cache_call dyn c t) = cache_spec dyn t.
 Proof.
   intro G. unfold cache_call, cache_spec.
-  pose proof (gen_all_ok t c [] G (fun p (F : In p []) => match F with end)) as [E1 [O1 R1]].
-  destruct (gen c t) as [c1 ok] eqn:Eg. simpl in E1, O1, R1. subst ok.
+  pose proof (gen_all_ok t c [] G (fun p (F : In p []) => match F with end)) as [E1 [O1 [G1 R1]]].
+  destruct (gen c t) as [c1 ok] eqn:Eg. simpl in E1, O1, G1, R1. subst ok.
   destruct (supported (erase t)); [|reflexivity].
-  destruct (R1 eq_refl) as [G1 P1]. destruct (visit_all_ok dyn t c1 [] G1 P1) as [E2 _].
+  pose proof (R1 eq_refl) as P1. destruct (visit_all_ok dyn t c1 [] G1 P1) as [E2 _].
   destruct (visit dyn c1 t []) as [[c2 r] tr]. exact E2.
 Qed.
 
-Lemma supported_erase : forall t, supported t = true -> supported (erase t) = true.
+(* the cache of an instance never holds a placeholder between two calls, whatever
+   the calls were: a failed generation removes its placeholders *)
+Lemma cache_call_step dyn c t : CInv c -> CInv (fst (cache_call dyn c t)).
 Proof.
-  induction t as [n|n|n cs IH|t IH] using ty_ind'; simpl; auto.
-  intro H. rewrite forallb_forall in H. apply forallb_forall. intros x Hx.
-  apply in_map_iff in Hx. destruct Hx as [y [<- Hy]]. simpl.
-  rewrite Forall_forall in IH. apply IH; auto.
+  intros G. unfold cache_call.
+  pose proof (gen_all_ok t c [] G (fun p (F : In p []) => match F with end)) as [E1 [O1 [G1 R1]]].
+  destruct (gen c t) as [c1 ok] eqn:Eg. simpl in E1, O1, G1, R1. subst ok.
+  destruct (supported (erase t)); [|exact G1].
+  pose proof (R1 eq_refl) as P1. destruct (visit_all_ok dyn t c1 [] G1 P1) as [_ [G2 _]].
+  destruct (visit dyn c1 t []) as [[c2 r] tr]. exact G2.
 Qed.
 
-Lemma spec_list_supported dyn l : Forall (fun c => forall tr, fst (spec dyn (snd c) tr) = COk) l ->
-  forall tr, fst (spec_list dyn l tr) = COk.
-Proof.
-  induction 1 as [|[reach u] l Hu _ IH]; intro tr; simpl; [reflexivity|].
-  destruct reach; [|apply IH]. simpl in Hu. specialize (Hu tr).
-  destruct (spec dyn u tr) as [r tr']. simpl in Hu. subst r. apply IH.
-Qed.
-
-Lemma spec_supported dyn : forall t, supported t = true -> forall tr, fst (spec dyn t tr) = COk.
-Proof.
-  induction t as [n|n|n cs IH|t IH] using ty_ind'; intros S tr.
-  - reflexivity.
-  - discriminate.
-  - rewrite spec_comp_unfold. apply spec_list_supported. simpl in S. rewrite forallb_forall in S.
-    rewrite Forall_forall in *. intros x Hx. apply IH; auto.
-  - simpl in *. destruct dyn; [|reflexivity]. rewrite supported_erase by exact S. apply IH, S.
-Qed.
-
-Lemma cache_call_step dyn c t : CInv c -> supported t = true -> CInv (fst (cache_call dyn c t)).
-Proof.
-  intros G S. unfold cache_call.
-  pose proof (gen_all_ok t c [] G (fun p (F : In p []) => match F with end)) as [E1 [O1 R1]].
-  destruct (gen c t) as [c1 ok] eqn:Eg. simpl in E1, O1, R1. subst ok.
-  rewrite supported_erase in * by exact S.
-  destruct (R1 eq_refl) as [G1 P1]. destruct (visit_all_ok dyn t c1 [] G1 P1) as [E2 R2].
-  pose proof (spec_supported dyn t S []) as Ok.
-  destruct (visit dyn c1 t []) as [[c2 r] tr]. simpl in *. rewrite <- E2 in Ok. simpl in Ok.
-  apply R2, Ok.
-Qed.
-
-Definition all_supported (t : ty) : Prop := supported t = true.
-
-Lemma cache_reuse_when dyn h t : Forall all_supported h ->
+Lemma cache_reuse dyn h t :
   run_reused cache_init (cache_call dyn) h t = run_fresh cache_init (cache_call dyn) t.
 Proof.
-  apply (reuse_eq_fresh_when cache_init (cache_call dyn) CInv all_supported).
+  apply (reuse_eq_fresh_when cache_init (cache_call dyn) CInv (fun _ => True)).
   - exact CInv_init.
   - intros s op G. rewrite (cache_call_obs dyn s op G), (cache_call_obs dyn cache_init op CInv_init). reflexivity.
-  - intros s op G S. apply cache_call_step; assumption.
+  - intros s op G _. apply cache_call_step; assumption.
+  - apply Forall_True.
 Qed.
 
-(* an unsupported type, then the same type again: the second call blocks forever *)
-Lemma cache_refuted dyn : exists h t,
-  run_reused cache_init (cache_call dyn) h t <> run_fresh cache_init (cache_call dyn) t.
-Proof. exists [TBad 1], (TBad 1). destruct dyn; vm_compute; discriminate. Qed.
+(* an unsupported type, then the same type again, and a type that contains it:
+   refused each time, nothing blocks *)
+Example cache_after_failure :
+  run_all (cache_call true) cache_init [TBad 1; TBad 1; TComp 2 [(true, TLeaf 3); (true, TBad 1)]; TLeaf 3]
+  = [(CErr, []); (CErr, []); (CErr, []); (COk, [3])].
+Proof. vm_compute. reflexivity. Qed.
 
-Example cache_refuted_hang :
-  run_reused cache_init (cache_call true) [TBad 1] (TBad 1) = (CHang, []) /\
-  run_fresh cache_init (cache_call true) (TBad 1) = (CErr, []).
-Proof. vm_compute. split; reflexivity. Qed.
-
-(* ... and a type that merely contains it is then accepted instead of refused *)
-Example cache_refuted_accepts :
-  run_reused cache_init (cache_call false) [TBad 1] (TComp 2 [(true, TLeaf 3); (false, TBad 1)]) = (COk, [2; 3]) /\
-  run_fresh cache_init (cache_call false) (TComp 2 [(true, TLeaf 3); (false, TBad 1)]) = (CErr, []).
-Proof. vm_compute. split; reflexivity. Qed.
+(* a failed generation leaves no placeholder, only the finished parts *)
+Example cache_state_after_failure :
+  fst (cache_call true cache_init (TComp 2 [(true, TLeaf 3); (true, TBad 1)])) = [(TLeaf 3, true)].
+Proof. vm_compute. reflexivity. Qed.
 
 (* ------------------------------------------------------------------ *)
 (* 4. CTE encoder context                                               *)
